@@ -54,6 +54,8 @@ def _c08(tier, seed):
         runs.append("H_C08_roundtrip(%d,2,125,128)" % v)
         runs.append("H_C08_readframe(%d,%d)" % (v, 6 if q else 12))
     # boundaries of the length bytes: 2^8, 2^16 words (concrete zero payload with symbolic first/last byte)
+    # one reader/writer object across frames of different header forms (state must not leak between frames)
+    runs += ["H_C08_sequence(%d,%d,%d)" % (v, lo, hi) for v in (0, 1) for lo, hi in ((126, 128), (255, 257), (65535, 65537))]
     runs += ["H_C08_bigframe(0,255,257)", "H_C08_bigframe(1,255,257)", "H_C08_bigframe(0,65535,65537)", "H_C08_bigframe(1,65535,65537)"]
     if not q:
         runs += ["H_C08_write(0,16383,16384)", "H_C08_write(1,16383,16384)", "H_C08_bigframe(0,1048575,1048577)", "H_C08_bigframe(1,16383,16385)"]
@@ -125,13 +127,17 @@ def _c01(tier, seed):
         for k in range(70):      # greedy cover of the distinct field shapes
             for pat in (0, 1, 2, 3):
                 runs.append("H_C01_class(4,%d,%d,1,0)" % (k, pat))
+        for cls, n in ((1, 24), (4, 70)):   # pairwise presence patterns (every pair of conditional fields in all 4 combinations, m <= 16)
+            for k in range(n):
+                for q in range(8):
+                    runs.append("H_C01_class(%d,%d,%d,1,0)" % (cls, k, 1000 + q))
         for idx in _sample(seed, N_STRUCTS, 100):
             for pat in (0, 1, 2, 3):
                 runs.append("H_C01_rt(%d,%d,1,0)" % (idx, pat))
         kern = ["H_string(0,9,1)", "H_string(250,258,1)", "H_string_last(0,9)", "H_string_last(250,261)", "H_popmessage_arbitrary(10)", "H_string(65534,65537,0)", "H_string_too_large(0)", "H_string_too_large(1)"]
     else:
         for idx in range(N_STRUCTS):
-            for pat in range(0, 64):
+            for pat in list(range(0, 64)) + list(range(1000, 1010)):
                 runs.append("H_C01_rt(%d,%d,1,0)" % (idx, pat))
             for variant in (1, 2):
                 runs.append("H_C01_rt(%d,1,2,%d)" % (idx, variant))
@@ -169,13 +175,17 @@ def _c02(tier, seed):
         for k in range(70):
             for pat in (0, 1, 2, 3):
                 runs.append("H_C02_class(4,%d,%d,1,0)" % (k, pat))
+        for cls, n in ((1, 24), (4, 70)):   # pairwise presence patterns
+            for k in range(n):
+                for q in range(8):
+                    runs.append("H_C02_class(%d,%d,%d,1,0)" % (cls, k, 1000 + q))
         for idx in _sample(seed + 1, N_STRUCTS, 120):
             for pat in (0, 1, 2, 3):
                 runs.append("H_C02_wire(%d,%d,1,0)" % (idx, pat))
         kern = ["H_string(0,9,1)", "H_string(250,258,1)", "H_string_last(250,261)", "H_string(65534,65537,0)", "H_string_too_large(0)", "H_string_too_large(1)"]
     else:
         for idx in range(N_STRUCTS):
-            for pat in range(0, 64):
+            for pat in list(range(0, 64)) + list(range(1000, 1010)):
                 runs.append("H_C02_wire(%d,%d,1,0)" % (idx, pat))
             for variant in (1, 2):
                 runs.append("H_C02_wire(%d,1,2,%d)" % (idx, variant))
